@@ -56,6 +56,10 @@ LawEvent(e) ==
     /\ IF "gM" \in DOMAIN e
        THEN Check(e.gM = (IF e.exp = "B" THEN e.gB ELSE e.gA), "C13", "MoveThroughApi", l, [op |-> tr.op, k |-> tr.k, d |-> tr.d, route |-> e.route])
        ELSE TRUE
+    \* the editor's overlay above layer k - 1 against the same cells as a real alpha layer inserted at k (gO = <<with overlay, with layer, k>>)
+    /\ IF "gO" \in DOMAIN e
+       THEN Check(e.gO[1] = e.gO[2], "C13", "OverlayAsLayer", l, [k |-> e.gO[3]])
+       ELSE TRUE
     /\ BumpBy(11, Cardinality(claims))
     /\ BumpBy(12, 2 * Cardinality(P))
     /\ IF badA = {} THEN TRUE
